@@ -230,17 +230,20 @@ def parse_template(lines):
                     spec.clauses.append(last)
                 elif kw in ('before-loop', 'loop-head', 'loop-tail', 'after-loop'):
                     m = re.match(r'^(\d+)\s+(.*)$', rest, re.S)
-                    last = Clause(kw, [], m.group(2), loop=int(m.group(1)))
+                    htags, htxt = parse_tags(m.group(2))
+                    last = Clause(kw, htags, htxt, loop=int(m.group(1)))
                     spec.clauses.append(last)
                 elif kw in ('at-start', 'at-end'):
-                    last = Clause(kw, [], rest)
+                    htags, htxt = parse_tags(rest)
+                    last = Clause(kw, htags, htxt)
                     spec.clauses.append(last)
                 elif kw in ('before', 'after'):
                     m = re.match(r'^"((?:[^"\\]|\\.)*)"\s+(.*)$', rest, re.S)
                     if not m:
                         raise GenError('bad anchor clause at line %d' % i)
                     anchor = m.group(1).replace('\\"', '"')
-                    last = Clause(kw, [], m.group(2), anchor=anchor)
+                    htags, htxt = parse_tags(m.group(2))
+                    last = Clause(kw, htags, htxt, anchor=anchor)
                     spec.clauses.append(last)
                 else:
                     raise GenError('unknown clause kind %r at line %d' % (kw, i))
